@@ -7,8 +7,10 @@ VERIF = os.path.dirname(os.path.dirname(os.path.abspath(__file__)))
 
 COMMON_NOTE = ("Trusted: Verus+Z3; the contract vocabulary (prelude.rs) incl. recorder/`delivered` witnesses that rest on "
                "linearity and parametricity of generic by-value observers; extraction rules R1-R10 (syntactic, counted in "
-               "evidence); one-handle stand-in for MutRc/MutArc (no aliasing between clones, no borrow/lock acquisition: "
-               "re-entrancy and thread interleavings are NOT covered); closures total and deterministic; Clone faithful. ")
+               "evidence); one-handle stand-in for MutRc/MutArc with a ghost cell identity (simultaneous access through two handles "
+               "and the dynamic borrow/lock acquisition are not modelled: thread interleavings are NOT covered, re-entrancy only "
+               "through the re-entry-discipline assertions and the Kani lock-scope obligations); closures total and "
+               "deterministic; Clone faithful. ")
 
 CLAIMS = {
     "C01": ("Closed-slot contracts (slot None => silent and stays None; terminal => slot None; at most one terminal per call) "
@@ -20,25 +22,31 @@ CLAIMS = {
             "re-entrant calls from inside a callback; thread interleavings; operators not under contract (DESIGN §3)."),
     "C02": ("Verus: unsubscribe of Subscriber, ZipSubscription, MultiSubscription (every part unsubscribed, late append torn "
             "down), TaskHandle (keep_running cleared, produced subscription unsubscribed), FinalizerSubscription; scheduler "
-            "operators register every scheduled handle and the composite / handler cell they register in is part of the "
-            "subscription returned by actual_subscribe (delay, observe_on, debounce).  Known finding: throttle.", "§4 C02, §6",
-            "the racing emitter thread (lock-level interleavings); Remote::poll honouring keep_running is trusted; "
-            "SubscriptionGuard::drop and buffer_with_time's actual_subscribe are not under contract."),
+            "operators register every scheduled handle and the composite / handler cell they register in IS (same cell identity) "
+            "part of the subscription returned by actual_subscribe (delay, observe_on, debounce, timed buffers, interval, timer, "
+            "from_future, subscribe_on, delay_subscription, merge_all); SubscriptionGuard::drop.  Kani lock-scope obligations "
+            "(sequential): Remote::poll polls a task body only while it holds the handle lock and never starts a cancelled "
+            "one; SubscriberThreads delivers under the cell lock.  Known finding: throttle.", "§4 C02, §6",
+            "the racing emitter thread as such (lock-level interleavings) — only the sequential lock-scope obligations are "
+            "decided; the schedule() async block is trusted."),
     "C03": ("Every single-input operator's observer methods and every basic source proved (Verus, unbounded) equal to one "
             "step of its documented list semantics on a recording downstream, incl. 'no aggregate with an error'; builders "
             "proved to be the documented compositions; lemma take_items.  Bounded (Kani, <= 3 items then any terminal): "
-            "from_iter/repeat, all, ignore_elements, count/sum/min/max, element_at/first_or/last_or, reduce.", "§4 C03",
-            "take_last::complete (drain loop) and collect::next (Extend) are trusted; create, average not under contract; "
+            "from_iter/repeat, all, ignore_elements, count/sum/min/max/average, element_at/first_or/last_or, reduce (thorough "
+            "tier: 6 items).", "§4 C03",
+            "take_last::complete (drain loop) and collect::next (Extend) are trusted; "
             "the Kani units are bounded and listed under bounded_checks, not counted as proved."),
     "C04": ("Verus step contracts for merge, zip, combine_latest (both macro instantiations), with_latest_from, sample, "
             "take_until, skip_until, buffer(notifier) for arbitrary pre-states (unbounded queues); lemma "
             "zip_pairs_ith_items proves the i-th pairing for EVERY interleaving, merge_one_terminal_last the terminal rule; "
-            "actual_subscribe of merge/zip: fresh state, both inputs on one state.", "§4 C04",
-            "aliasing of the two handles is read off actual_subscribe (clones of one own(..)), not proved; interleaving "
-            "lemmas exist for zip and merge only."),
+            "actual_subscribe of all eight operators: fresh state, both inputs observe ONE state (same ghost cell identity); frame "
+            "obligation: completion of with_latest_from's secondary input leaves the latest value alone.", "§4 C04",
+            "interleaving lemmas exist for zip and merge only."),
     "C05": ("Verus: InnerObserver/OutsideObserver of merge_all (both forms) proved against the counter/queue contract: running "
             "inners <= limit, FIFO of waiting inners, an inner completion starts the OLDEST waiting one or frees its slot, "
             "downstream completes exactly when the outer stream is done and nothing runs or waits, first error closes the slot; "
+            "re-entry discipline: when a (deferred) inner subscription is started the shared counters already count it; "
+            "MergeAllOp::actual_subscribe creates fresh counters and registers inner subscriptions in the returned composite; "
             "Kani: the ten higher-order builders use the documented limit.", "§4 C05",
             "the 3-line body of the deferred-subscription closure is not verified (rule R11); 'without panicking or blocking' "
             "(dynamic borrow/lock re-entrancy) is outside the stand-in (one such defect was found by reading and fixed)."),
@@ -46,8 +54,11 @@ CLAIMS = {
             "unsubscribe/is_closed/is_empty/len/retain proved on the real macro text (iterator adapters desugared by rule R9, "
             "SmallVec assumed to be a Vec) against 'exactly once, in list order, to everybody registered before the emission; "
             "terminal once to every open unfinished subscriber; nothing after a terminal'; the real subscribers discharge the "
-            "Publisher contract.", "§4 C06",
-            "thread interleavings and re-entrant calls from callbacks (borrow/lock acquisition) are outside the stand-in; "
+            "Publisher contract; the closure subscriber (subscribe_item).  Kani with one subscriber: size bookkeeping incl. a "
+            "subscriber still waiting in the chamber, and the lock-scope obligation 'a callback runs while the live list is "
+            "locked' (SubjectThreads).", "§4 C06",
+            "thread interleavings are outside the family (the lock-scope obligation is sequential; on changed code that "
+            "moves the list in and out CBMC does not finish: undecided); "
             "retain's completeness clause and the MutRef* variants (same macro text) are not separately proved."),
     "C07": ("Verus with scheduler stand-ins: Delay/ObserveOn observers (both forms) schedule exactly one one-shot task per "
             "notification with the configured delay (None for observe_on) carrying (slot handle, payload), deliver nothing "
@@ -57,30 +68,36 @@ CLAIMS = {
             "preservation assumes a FIFO scheduler (DESIGN §6); Instant/Duration are an assumed contract."),
     "C08": ("Verus: the task bodies interval_task, timer_task, item_task, result_task; interval/timer actual_subscribe "
             "schedule one repeating / one-shot task with the right period, delay and arguments; interval_at/timer_at compute "
-            "the remaining time.  Kani (bounded): RepeatTask::poll on a virtual clock (consecutive sequence numbers, one fresh "
+            "the remaining time; from_future / from_future_result actual_subscribe (one undelayed task that hands the future's "
+            "value to item_task / result_task).  Kani (bounded): RepeatTask::poll on a virtual clock (consecutive sequence numbers, one fresh "
             "timer per accepted tick, never runs on a pending timer, retires when the task declines), FutureTask::poll, "
             "from_stream / from_stream_result drivers over scripted streams.", "§4 C08",
             "timer accuracy (futures_time::sleep) and executor behaviour are assumed; poll loops are bounded (3 ticks / 3 steps)."),
     "C09": ("Verus: buffer contracts (never empty, flush at count, order kept, concatenation on completion), sample's "
             "take-once cell, debounce (pending item replaced, previous task cancelled, one task per item with the window as "
             "delay, flush on completion), throttle (window open iff handle not closed; leading/trailing/all edges; no item "
-            "twice), their task functions take the trailing cell, timed flush tasks retire when finished.", "§4 C09",
+            "twice), their task functions take the trailing cell, timed flush tasks retire when finished; actual_subscribe of the "
+            "timed buffers: exactly one repeating flush task on the buffer the source fills.", "§4 C09",
             "the timed behaviour rests on the assumed scheduler semantics (a task fires at schedule time + delay unless cancelled)."),
     "C11": ("Verus: ConnectableObservable::actual_subscribe only joins the inner subject (no bound on the source type: typing "
             "argument), connect subscribes the source with the subject; ShareOp::actual_subscribe (both forms): the first "
             "subscription joins, swaps Connectable->Connected and connects exactly then, later ones only join; "
             "RefCountSubscription tears the subject down only when it reports empty; Subject::is_empty/len count live "
-            "subscribers.  Known finding: the connection's own subscription is dropped.", "§4 C11, §6",
+            "subscribers (Kani, one subscriber: also one that still waits in the chamber).  Known finding: the connection's own subscription is dropped.", "§4 C11, §6",
             "the subject is an abstract stand-in inside the share unit (its contract is proved in the subject unit)."),
     "C12": ("Verus: BehaviorSubject methods over an abstract inner-subject contract: value cell written before broadcast, "
             "subscriber gets the cell first, peek returns the cell, next_by(f) == next(f(peek())).", "§4 C12",
             "single-threaded clause only; the concurrent-producers clause is outside the family."),
     "C13": ("Verus: builders return the plain operator value (source + parameters); actual_subscribe of every operator under "
-            "contract creates fresh initial state and subscribes the source with it; of_fn/start call their closure once on "
-            "subscription; Kani: defer calls its supplier exactly once, on subscription.", "§4 C13",
-            "independence of clones is an ownership argument (no operator value holds a shared cell); create not under contract."),
+            "contract (single-input, two-input, buffers, merge_all, scheduler operators, create, finalize, collect, distinct, "
+            "on_complete/on_error) creates fresh initial state from the operator's fields only and subscribes the source "
+            "with it; of_fn/start call their closure once on subscription; Kani: defer calls its supplier exactly once, on "
+            "subscription.", "§4 C13",
+            "independence of clones is an ownership argument (no operator value holds a shared cell: a change that moves a "
+            "cell into the operator value changes a field type and ends undecided); DistinctKeyOp::actual_subscribe (Verus ICE)."),
     "C14": ("Verus with an assumed channel/atomic contract: what the to_future / to_stream / complete_status observers put on "
-            "the channel or flag for every source history (store before wake).  Kani on the REAL futures channel / "
+            "the channel or flag for every source history (store before wake); CompleteStatus::{is_closed,is_completed,error_occur}.  "
+            "Kani on the REAL futures channel / "
             "AtomicWaker: to_future resolves to the documented outcome, to_stream yields every item and the error and then "
             "ends (bounded: 2 items), StatusFuture::poll never returns Pending with the flag set and no wake-up delivered "
             "(producer run at the hooked yield point).", "§4 C14",
@@ -95,16 +112,20 @@ CLAIMS = {
             "from_stream drivers do not consult is_finished (not claimed); chains are covered by the per-observer forwarding clause."),
     "C17": ("Verus: is_closed() => dead for Subscriber, ZipSubscription, (), MultiSubscription, TaskHandle (both kinds), "
             "FinalizerSubscription, RefCountSubscription, BehaviorSubject, subjects; unsubscribe makes them dead; a part "
-            "appended to an unsubscribed composite is unsubscribed at once.", "§4 C17",
+            "appended to an unsubscribed composite is unsubscribed at once — also while the composite is still tearing its parts "
+            "down (re-entry discipline); Kani: SubscriberThreads delivers under the cell lock (so is_closed()==true on another "
+            "handle cannot be followed by a delivery in flight).", "§4 C17",
             "'never again false' across clones is the closed-slot argument; debounce's handler cell reports closed while empty (DESIGN §6)."),
     "C18": ("Every unit that exists in a local and a thread-safe form is extracted in BOTH forms (macro instantiations found at "
             "the real invocation sites) and proved against ONE functional contract; Kani: the thread-safe higher-order "
             "builders use the same limits as the local ones.", "§4 C18",
-            "box_it, finalize builders and units not under contract in both forms are not covered."),
+            "box_it (BoxOp) and the MutRef* subjects are not covered."),
     "C19": ("Verus: TaskHandle::{unsubscribe,is_closed} for plain and subscribing tasks, value_handle; Kani: OnceTask::poll "
-            "(runs once, arguments gone), FutureTask::poll, RepeatTask::poll (bounded).", "§4 C19",
-            "Remote::poll (catch_unwind: Kani times out) and the schedule() async block (delay awaited before the task) are TRUSTED; "
-            "executor behaviour is assumed."),
+            "(runs once, arguments gone), FutureTask::poll, RepeatTask::poll (bounded), Remote::poll (a cancelled handle never "
+            "starts the body; the body is polled only while the handle lock is held, so unsubscribe() cannot return while it "
+            "runs).", "§4 C19",
+            "the Ready outcome of Remote::poll (store of the result) and the schedule() async block (delay awaited before the "
+            "task) are TRUSTED (CBMC does not finish, notes/not-feasible); executor behaviour is assumed."),
 }
 
 NOT_APPLICABLE = {
